@@ -206,6 +206,8 @@ impl Tokenizer
 	pub fn detokenize(&self,img: &[u8]) -> Result<String,DYNERR> {
 		const DATA_TOK: u8 = 131;
 		const REM_TOK: u8 = 178;
+		// behind an ampersand REM and DATA are names of a command: what follows is tokenized like any statement
+		const AMP_TOK: u8 = 175;
 		const QUOTE: u8 = 34;
 		let mut addr = 0;
 		let mut code = String::new();
@@ -231,13 +233,13 @@ impl Tokenizer
 						code += "\"";
 						addr += 1;
 					}
-				} else if img[addr]==REM_TOK {
+				} else if img[addr]==REM_TOK && !(addr>line_addr && img[addr-1]==AMP_TOK) {
 					code += " REM ";
 					let (escaped,naddr) = super::bytes_to_escaped_string_ex(img, addr+1,
 						&self.config.detokenizer.escapes, &[0], "tok_rem");
 					code += &escaped;
 					addr = naddr;
-				} else if img[addr]==DATA_TOK {
+				} else if img[addr]==DATA_TOK && !(addr>line_addr && img[addr-1]==AMP_TOK) {
 					code += " DATA ";
 					let (mut escaped,naddr) = super::bytes_to_escaped_string_ex(img, addr+1,
 						&self.config.detokenizer.escapes, &[58,0], "tok_data");
